@@ -38,6 +38,7 @@ fn handle(ctx: &Ctx, line: &str) -> String {
         "HLOAD" => header_fam::hload_case(ctx, &t),
         "CKS" => header_fam::cks_case(&t),
         "FIND" => header_fam::find_case(ctx, &t),
+        "HSWEEP" => header_fam::hsweep_case(ctx, &t),
         "SWEEP" => sweep::sweep_case(ctx, &t),
         "CAST" => cast_fam::cast_case(ctx, &t),
         "ELFNAME" => sweep::elfname_case(ctx, &t),
